@@ -32,7 +32,9 @@ CASES = [
     ("range2", "for int i in [ <0> : <1> ] { }", "RANGE_EXPR", [("RangeExpr", "start_step_stop", (0, None, 1))]),
     ("range3", "for int i in [ <0> : <1> : <2> ] { }", "RANGE_EXPR", [("RangeExpr", "start_step_stop", (0, 1, 2))]),
     ("assign", "x = <0> ;", "ASSIGNMENT_STMT", [("AssignmentStmt", "identifier", ("x", "x")), ("AssignmentStmt", "rhs", 0)]),
-    ("assign-indexed", "x [ <0> ] = <1> ;", "ASSIGNMENT_STMT", [("AssignmentStmt", "rhs", 1)]),
+    # an indexed target: there is no plain-identifier target, whatever the value is (an identifier value must not be taken for it)
+    ("assign-indexed", "x [ <0> ] = <1> ;", "ASSIGNMENT_STMT", [("AssignmentStmt", "rhs", 1), ("AssignmentStmt", "identifier", None), ("AssignmentStmt", "indexed_identifier", ("x", "]1"))]),
+    ("assign-from-indexed", "x = y [ <0> ] ;", "ASSIGNMENT_STMT", [("AssignmentStmt", "identifier", ("x", "x")), ("AssignmentStmt", "rhs", ("y", "]1"))]),
     ("indexed-identifier", "x [ <0> ] = <1> ;", "INDEXED_IDENTIFIER", [("IndexedIdentifier", "identifier", ("x", "x"))]),
     ("gatecall", "g ( <0> ) q ;", "GATE_CALL_EXPR", [("GateCallExpr", "identifier", ("g", "g"))]),
     ("call", "f ( <0> , <1> ) ;", "CALL_EXPR", [("CallExpr", "identifier", ("f", "f"))]),
@@ -79,7 +81,7 @@ class H(semh.Base):
                 continue
             joint = w.endswith("~") and len(w) > 1
             w_ = w[:-1] if joint else w
-            if w_ in "{};":
+            if w_ in "{};]":
                 counts[w_] += 1
                 marks[w_ + str(counts[w_])] = len(toks)
             elif re.match(r"^[a-z]$", w_):
